@@ -8,6 +8,7 @@ from __future__ import annotations
 
 import ast
 import itertools
+import re
 
 import z3
 
@@ -441,10 +442,17 @@ def bounded_aliasing(report):
     if fa == fb or sp.diff(fa(t) * fb(t), t) == 2 * fa(t) * sp.diff(fa(t), t):
         failures.append({"name": "C09/bounded/functions-alias", "detail": "", "replay": {"reproduced": True, "script": None}})
     # printing shows display names, never generated internal names
-    for o in [objs[0], objs[3], fns[0](objs[0]), objs[0] * objs[1] + fns[1](objs[4])]:
+    from symplyphysics.core.symbols.symbols import clone_as_indexed as _cai
+    from symplyphysics import global_index as _gi
+    ci = _cai(objs[0])
+    printed = [objs[0], objs[3], fns[0](objs[0]), objs[0] * objs[1] + fns[1](objs[4]),
+               # every kind of object the statement lists, bare and inside containers / relations
+               idx[0], ci, idx[0][_gi], ci[_gi], idx[0][_gi] * objs[0] + ci[_gi], sp.Eq(idx[0], idx[1]), [objs[0], idx[0]], (ci, fns[2](objs[1])),
+               sp.Eq(objs[3], fns[0](objs[0])), clone_as_symbol(objs[0], subscript="1") ** 2, sp.Derivative(fns[0](objs[0]), objs[0])]
+    for o in printed:
         count += 1
         txt = print_expression(o)
-        if any(p in txt for p in ("SYM", "FUN", "QTY")):
+        if re.search(r"(SYM|FUN|QTY|IDX)\d", txt):
             failures.append({"name": "C09/bounded/internal-name-printed", "detail": txt, "replay": {"reproduced": True, "script": None}})
     from symplyphysics.core.coordinate_systems.coordinate_systems import coordinates_transform
     from symplyphysics.core.symbols.symbols import clone_as_indexed
